@@ -5,7 +5,8 @@
    [block_cipher E D]; C05 proves that NewCipher/Encrypt/Decrypt of sm4.go are SM4Spec, which is one
    (C11_sm4_is_block_cipher). *)
 From Coq Require Import List NArith Arith Bool Lia.
-From GmsmVerif Require Import Lib.Outcome SM4.SM4Spec SM4.ModesSpec SM4.ModesModel SM4.ModesProofs.
+From Coq Require String.
+From GmsmVerif Require Import Lib.Outcome Gen.SM4Consts SM4.SM4Spec SM4.ModesSpec SM4.ModesModel SM4.ModesProofs SM4.SM4Consts.
 Import ListNotations.
 Local Open Scope nat_scope.
 
@@ -193,6 +194,70 @@ Theorem C11_history : forall E D (calls : list mode_call) p, block_cipher E D ->
   modes_run E D p calls = modes_spec_run E D (IV p) calls.
 Proof. intros E D calls p [H1 H2 H3 H4] Hiv HF. exact (modes_run_spec E D H1 H2 H3 H4 calls HF p Hiv). Qed.
 Print Assumptions C11_history.
+
+(* ---- 8. the same statements for SM4 itself: no premise left ------------------------------------------------------ *)
+(* E = sm4_encrypt_block, D = sm4_decrypt_block, which C05_go_cipher_is_sm4 proves to be what the cipher.Block
+   returned by sm4.NewCipher(key) computes on every 16-byte block *)
+Theorem C11_encrypt_is_standard_sm4 : forall p key m, length key = 16 -> length (IV p) = 16 ->
+  let E := sm4_encrypt_block in let D := sm4_decrypt_block in
+  Sm4Ecb E D p key m true = Ok (ecb_pkcs7 (E key) m) /\ Sm4Cbc E D p key m true = Ok (cbc_pkcs7 (E key) (IV p) m) /\
+  Sm4CFB E p key m true = Ok (cfb_pkcs7 (E key) (IV p) m) /\ Sm4OFB E p key m true = Ok (ofb_pkcs7 (E key) (IV p) m).
+Proof.
+  intros p key m Hk Hi. pose proof C11_sm4_is_block_cipher as B. cbv zeta. repeat split.
+  - exact (C11_ecb_encrypt_is_standard _ _ p key m B Hk).
+  - exact (C11_cbc_encrypt_is_standard _ _ p key m B Hk Hi).
+  - exact (C11_cfb_encrypt_is_standard _ _ p key m B Hk Hi).
+  - exact (C11_ofb_encrypt_is_standard _ _ p key m B Hk Hi).
+Qed.
+Print Assumptions C11_encrypt_is_standard_sm4.
+
+Theorem C11_decrypt_encrypt_sm4 : forall p key m c, length key = 16 -> length (IV p) = 16 ->
+  bytes_ok (IV p) = true -> bytes_ok m = true ->
+  let E := sm4_encrypt_block in let D := sm4_decrypt_block in
+  (Sm4Ecb E D p key m true = Ok c -> Sm4Ecb E D p key c false = Ok m) /\
+  (Sm4Cbc E D p key m true = Ok c -> Sm4Cbc E D p key c false = Ok m) /\
+  (Sm4CFB E p key m true = Ok c -> Sm4CFB E p key c false = Ok m) /\
+  (Sm4OFB E p key m true = Ok c -> Sm4OFB E p key c false = Ok m).
+Proof.
+  intros p key m c Hk Hi Hib Hm. pose proof C11_sm4_is_block_cipher as B. cbv zeta. repeat split.
+  - exact (C11_ecb_decrypt_encrypt _ _ p key m c B Hk Hm).
+  - exact (C11_cbc_decrypt_encrypt _ _ p key m c B Hk Hi Hib Hm).
+  - exact (C11_cfb_decrypt_encrypt _ _ p key m c B Hk Hi).
+  - exact (C11_ofb_decrypt_encrypt _ _ p key m c B Hk Hi).
+Qed.
+Print Assumptions C11_decrypt_encrypt_sm4.
+
+Theorem C11_history_sm4 : forall (calls : list mode_call) p, length (IV p) = 16 ->
+  Forall (fun c => length (m_key c) = 16 /\ (m_mode c = false -> exists n, length (m_in c) = 16 * n)) calls ->
+  modes_run sm4_encrypt_block sm4_decrypt_block p calls = modes_spec_run sm4_encrypt_block sm4_decrypt_block (IV p) calls.
+Proof. intros calls p. exact (C11_history _ _ calls p C11_sm4_is_block_cipher). Qed.
+Print Assumptions C11_history_sm4.
+
+(* ---- 9. the constants the model hard-codes are the constants of the source (Gen/SM4Consts.v) ------------------------ *)
+(* BlockSize in pkcs7Padding and SetIV, the 16-byte windows of the four loops, the complete literal sequences of
+   xor, pkcs7Padding, pkcs7UnPadding, SetIV, Sm4Ecb, Sm4Cbc, Sm4CFB, Sm4OFB, and: IV is the only package-level
+   variable of sm4.go besides the constant tables (what record pkg assumes) *)
+Theorem C11_source_constants :
+  (forall src, pkcs7Padding src =
+     let padding := nlit gen_lits_pkcs7Padding 0 - length src mod nlit gen_lits_pkcs7Padding 1 in
+     src ++ repeat (N.of_nat padding mod 256)%N padding) /\
+  (forall iv pk, SetIV iv pk = if negb (Nat.eqb (length iv) (nlit gen_lits_SetIV 0)) then (Err 1, pk) else (Ok Datatypes.tt, mkPkg iv)) /\
+  (forall data i, blk data i = firstn (nlit gen_lits_Sm4Cbc 9) (skipn (nlit gen_lits_Sm4Cbc 6 * i) data)) /\
+  gen_lits_pkcs7Padding = [16; 16]%N /\ gen_lits_pkcs7UnPadding = [0; 1; 16; 0; 0]%N /\ gen_lits_SetIV = [16]%N /\
+  gen_pkg_vars_sm4 = sm4_pkg_vars_expected (* "IV", "fk", "ck", "sbox", "sbox0", "sbox1", "sbox2", "sbox3" *).
+Proof.
+  split; [exact pkcs7Padding_at_source|]. split; [exact SetIV_at_source|].
+  split; [intros data i; apply (helpers_block_at_source data i)|]. repeat split; reflexivity.
+Qed.
+Print Assumptions C11_source_constants.
+
+(* ... and the complete literal sequences of the mode helpers *)
+Theorem C11_source_literals_frozen :
+  gen_lits_Sm4Ecb = [16; 0; 16; 16; 16; 16; 16; 16; 16; 16; 0; 16; 16; 16; 16; 16; 16; 16; 16]%N /\
+  gen_lits_Sm4Cbc = [16; 16; 0; 16; 16; 16; 16; 16; 16; 16; 16; 0; 16; 16; 16; 16; 16; 16; 16; 16]%N /\
+  length gen_lits_Sm4CFB = 43 /\ length gen_lits_Sm4OFB = 43 /\ gen_lits_xor = [0%N].
+Proof. repeat split; reflexivity. Qed.
+Print Assumptions C11_source_literals_frozen.
 
 (* ---- non-vacuity: SM4 instances, evaluated ------------------------------------------------------------------------ *)
 Definition ex_key : list N := A1_key.
